@@ -7,27 +7,28 @@ open PyIpmi PyIpmi.Codec PyIpmi.Spec.Bmc PyIpmi.Gen.Tables
 /-- `s.ljust(16, '\x00')` -/
 def ljust16 (l : List Nat) : List Nat := l ++ List.replicate (16 - l.length) 0
 
-def api_set_username (uid : Nat) (name : List Nat) (s : BmcState) : Outcome (BmcState × Result) :=
+def api_set_username (uid : Nat) (name : List Nat) : Exchange :=
   let r := fresh reqSetUserName
   let r := setBit r 0 0 uid
   let r := setArr r 1 (ljust16 name)
-  (transact reqSetUserName rspSetUserName 0 r s).bind fun (s', _) => .ok (s', .unit)
+  { req := reqSetUserName, rsp := rspSetUserName, vals := .ok r, post := fun _ => .ok .unit }
 
-def api_get_username (uid : Nat) (s : BmcState) : Outcome (BmcState × Result) :=
-  (transact reqGetUserName rspGetUserName 0 (setBit (fresh reqGetUserName) 0 0 uid) s).bind fun (s', v) =>
-    .ok (s', .bytes (arrAt v 1))
+def api_get_username (uid : Nat) : Exchange :=
+  { req := reqGetUserName, rsp := rspGetUserName, vals := .ok (setBit (fresh reqGetUserName) 0 0 uid),
+    post := fun v => .ok (.bytes (arrAt v 1)) }
 
-def api_get_user_access (uid ch : Nat) (s : BmcState) : Outcome (BmcState × Result) :=
+def api_get_user_access (uid ch : Nat) : Exchange :=
   let r := fresh reqGetUserAccess
   let r := setBit r 1 0 uid
   let r := setBit r 0 0 ch
-  (transact reqGetUserAccess rspGetUserAccess 0 r s).bind fun (s', v) =>
-    .ok (s', .userAccess {
-      maxUsers := bitAt v 1 0, enabledCount := bitAt v 2 0, enableStatus := bitAt v 2 1, fixedNames := bitAt v 3 0,
-      privilege := (lookup rawToUserPrivilege (bitAt v 4 0)).getD 0,
-      ipmiMsg := bitAt v 4 1 == 1, linkAuth := bitAt v 4 2 == 1, callbackOnly := bitAt v 4 3 == 1 })
+  { req := reqGetUserAccess, rsp := rspGetUserAccess, vals := .ok r,
+    post := fun v =>
+      .ok (.userAccess {
+        maxUsers := bitAt v 1 0, enabledCount := bitAt v 2 0, enableStatus := bitAt v 2 1, fixedNames := bitAt v 3 0,
+        privilege := (lookup rawToUserPrivilege (bitAt v 4 0)).getD 0,
+        ipmiMsg := bitAt v 4 1 == 1, linkAuth := bitAt v 4 2 == 1, callbackOnly := bitAt v 4 3 == 1 }) }
 
-def api_set_user_access (a : UserAccessArgs) (s : BmcState) : Outcome (BmcState × Result) :=
+def api_set_user_access (a : UserAccessArgs) : Exchange :=
   let r := fresh reqSetUserAccess
   let r := setBit r 0 0 a.channel
   let r := setBit r 0 1 (b2n a.ipmiMsg)
@@ -37,18 +38,18 @@ def api_set_user_access (a : UserAccessArgs) (s : BmcState) : Outcome (BmcState 
   let r := setBit r 1 0 a.userId
   let r := setBit r 2 0 ((lookup userPrivilegeToRaw a.privilege).getD 15)
   let r := setBit r 3 0 a.sessionLimit
-  (transact reqSetUserAccess rspSetUserAccess 0 r s).bind fun (s', _) => .ok (s', .unit)
+  { req := reqSetUserAccess, rsp := rspSetUserAccess, vals := .ok r, post := fun _ => .ok .unit }
 
-def setPasswordOp (uid op : Nat) (pw : Option (List Nat)) (s : BmcState) : Outcome (BmcState × Result) :=
+def setPasswordOp (uid op : Nat) (pw : Option (List Nat)) : Exchange :=
   let r := fresh reqSetUserPassword
   let r := setBit r 0 0 uid
   let r := setBit r 1 0 op
   let r := match pw with | some p => setArr r 2 p | none => r
-  (transact reqSetUserPassword rspSetUserPassword 0 r s).bind fun (s', _) => .ok (s', .unit)
+  { req := reqSetUserPassword, rsp := rspSetUserPassword, vals := .ok r, post := fun _ => .ok .unit }
 
-def api_set_user_password (uid : Nat) (pw : List Nat) (s : BmcState) : Outcome (BmcState × Result) :=
-  if pw.length > 16 then .pyError "ValueError" else setPasswordOp uid 2 (some (ljust16 pw)) s
-def api_enable_user (uid : Nat) (s : BmcState) : Outcome (BmcState × Result) := setPasswordOp uid 1 none s
-def api_disable_user (uid : Nat) (s : BmcState) : Outcome (BmcState × Result) := setPasswordOp uid 0 none s
+def api_set_user_password (uid : Nat) (pw : List Nat) : Exchange :=
+  if pw.length > 16 then .raise (.pyError "ValueError") else setPasswordOp uid 2 (some (ljust16 pw))
+def api_enable_user (uid : Nat) : Exchange := setPasswordOp uid 1 none
+def api_disable_user (uid : Nat) : Exchange := setPasswordOp uid 0 none
 
 end PyIpmi.Model.Api
